@@ -449,3 +449,26 @@ def fold_traces(specdir, module, cfg, segs, timeout=600, tracefile="trace.ndjson
             out["transitions"] += tr
             out["errors"] += errs
     return out
+
+
+def tlc_simulate_budget(workdir, module, cfg, budget_s, depth, seed, workers=8, probe_num=20, max_num=200000):
+    """TLC simulation sized to a wall-clock budget: a small probe run measures the speed on this
+    machine (JVM start and parsing included), the main run gets the number of traces that fits.
+    Returns the list of TLCResults (probe, main)."""
+    t0 = time.time()
+    r1 = tlc(workdir, module, cfg=cfg, workers=workers, timeout=max(600, budget_s * 4), deadlock=False,
+             simulate="num=%d" % probe_num, depth=depth, seed=seed)
+    out = [r1]
+    el = time.time() - t0
+    if not r1.ok or r1.generated == 0:
+        return out
+    # states/s of the stepping phase, assuming ~40% of the probe was start-up on a tiny run
+    left = budget_s - el
+    step_rate = r1.generated / max(el * 0.6, 0.5)
+    per_trace = max(r1.generated / float(probe_num * workers), 1.0)
+    num = int(min(max_num, (left - el * 0.4) * step_rate / per_trace / workers))
+    if num >= probe_num:
+        r2 = tlc(workdir, module, cfg=cfg, workers=workers, timeout=max(900, budget_s * 6), deadlock=False,
+                 simulate="num=%d" % num, depth=depth, seed=seed + 1)
+        out.append(r2)
+    return out
